@@ -62,6 +62,10 @@ def run(ctx):
         for ki, K in enumerate(keys):
             T = bytes(rnd.randrange(256) for _ in range(16)) if c == 'threefish' else b''
             obj = R.construct(c, [K], T); cirec = R.ci(c, [K], T)
+            if ki % 2 == 0:                                                       # a fresh object whose FIRST operation is dec, then enc of that result
+                fo = R.construct(c, [K], T); fb = bytes(rnd.randrange(256) for _ in range(bl))
+                d0 = R.ev_crypt(fo, cirec, 'dec', fb); ev.append(d0)
+                if not d0['raised'] and len(d0['obs']) == bl: ev.append(R.ev_crypt(fo, cirec, 'enc', bytes(d0['obs'])))
             blocks = [bytes(bl), b'\xff' * bl, bytes(rnd.randrange(256) for _ in range(bl))][(0 if big or ki < 2 else 2):]
             for blk in blocks:
                 ev.append(R.ev_pair_blocks(obj, cirec, blk)); ctx.mark((c, n, ki, blk.hex()[:12]))
